@@ -1014,3 +1014,186 @@ def _var_uses(fb, fn, d, depth, seen):
         if n.get('k') == 'var' and n.get('d') == d:
             out |= value_sinks(fb, fn, n['id'], depth + 1, seen)
     return out
+
+
+# ------------------------------------------------------------------------------------------------ XML self-closing elements
+
+def _is_collection_call(fb, n):
+    """call on an OSM entity that returns one of its sub-collections (a record derived from osmium::memory::Item)"""
+    if n.get('k') != 'call' or not is_entity_class(n.get('rcls')) or 'q' not in n:
+        return False
+    t = (n.get('t') or '').replace('const ', '').rstrip('&* ').strip()
+    r = fb.record(t.split('<', 1)[0]) if t else None
+    if r is not None:
+        return 'osmium::memory::Item' in r.allbases and 'osmium::OSMEntity' not in r.allbases
+    # record outside the analysed roots: a type whose values are iterated / tested for emptiness through the osmium container API
+    ct = getattr(fb, '_c01_coll_types', None)
+    if ct is None:
+        ct = set()
+        for f in fb.functions:
+            if not f.has_cfg:
+                continue
+            for c in f.all_nodes():
+                if c.get('k') == 'call' and c.get('recv') is not None and c.get('q', '').startswith('osmium::') \
+                        and c['q'].rsplit('::', 1)[-1] in ('begin', 'end', 'cbegin', 'cend', 'empty'):
+                    rt = ((f.sn(c['recv']) or {}).get('t') or '').replace('const ', '').rstrip('&* ').strip()
+                    if rt:
+                        ct.add(rt)
+        fb._c01_coll_types = ct
+    return t in ct
+
+
+_EMPTY_TESTS = ('empty', 'size', 'begin', 'end', 'cbegin', 'cend')
+
+
+def _used_for_emptiness_only(fn, nid):
+    pm = fn.parent_map()
+    x = nid
+    hops = 0
+    while x in pm and hops < 6:
+        p = fn.nodes[pm[x]]
+        hops += 1
+        if p.get('k') in ('wrap', 'icast', 'cast'):
+            x = p['id']
+            continue
+        if p.get('k') == 'member' and p.get('name') in ('empty', 'size'):
+            return True
+        if p.get('k') == 'call' and p.get('recv') == x and p.get('q', '').rsplit('::', 1)[-1] in ('empty', 'size'):
+            return True
+        return False
+    return False
+
+
+def written_collections(fb, fn, depth=0, seen=None):
+    """Names of the sub-collection accessors whose result fn (or a helper it hands the entity / collection to) writes."""
+    out = set()
+    seen = set() if seen is None else seen
+    if id(fn) in seen or depth > 2:
+        return out
+    seen.add(id(fn))
+    for n in fn.all_nodes():
+        if _is_collection_call(fb, n) and not _used_for_emptiness_only(fn, n['id']):
+            out.add(n['q'].rsplit('::', 1)[-1])
+        elif n.get('k') == 'call' and n.get('u') and n.get('rcls') == fn.cls and fn.cls and n.get('args'):
+            # a helper of the writer that is handed the whole entity
+            if any(is_entity_class(((fn.sn(a) or {}).get('t') or '').replace('const ', '').rstrip('&* ').strip()) and (fn.sn(a) or {}).get('k') == 'var'
+                   for a in n['args']):
+                for g in fb.by_usr.get(n['u'], []):
+                    if g.has_cfg:
+                        out |= written_collections(fb, g, depth + 1, seen)
+                        break
+    return out
+
+
+def xml_self_closing_sites(fb, classes):
+    """[(fn, literal node, root element, written collections)] for every `/>` literal that closes the root element of the function
+    that opened it (not a child element written in a loop)."""
+    fns = writer_functions(fb, classes)
+    usrs = {f.usr for f in fns}
+    out = []
+    seen = set()
+    for f in fns:
+        if f.cls not in classes or f.pat in seen:
+            continue
+        evs = out_events(fb, f, usrs)
+        opens = []
+        closes = []
+        for e in evs:
+            if e.kind != 'lit':
+                continue
+            for t in e.texts:
+                for m in _XML_TOKEN.finditer(t):
+                    if m.group(1):
+                        opens.append((e.node, m.start(), m.group(1)))
+                if t.lstrip('"').startswith('/>'):
+                    closes.append(e.node)
+        if not closes or not opens:
+            continue
+        seen.add(f.pat)
+        for c in closes:
+            doms = [o for o in opens if f.elem_dominates(o[0], c)]
+            if not doms:
+                continue
+            # nearest dominating open
+            best = doms[0]
+            for o in doms[1:]:
+                if f.elem_dominates(best[0], o[0]) or (best[0] == o[0] and best[1] < o[1]):
+                    best = o
+            inloop = any(f.in_range(best[0], l['b'], l['e']) for l in f.loops)
+            is_root = all(o is best or f.elem_dominates(best[0], o[0]) or (o[0] == best[0]) for o in opens)
+            if inloop or not is_root:
+                continue
+            out.append((f, c, best[2], written_collections(fb, f)))
+    return out
+
+
+def _begin_end_pair(fn, n):
+    """collection name if n compares X.c().begin() with X.c().end() (built-in or overloaded ==/!=)"""
+    if n.get('k') == 'binop':
+        sides = [n['lhs'], n['rhs']]
+    else:
+        sides = ([n['recv']] if n.get('recv') is not None else []) + list(n.get('args', []))
+    if len(sides) != 2:
+        return None
+    names, colls = set(), set()
+    for x in sides:
+        c = fn.sn(x)
+        hops = 0
+        while c is not None and c.get('k') == 'construct' and c.get('args') and hops < 3:
+            c = fn.sn(c['args'][0])
+            hops += 1
+        if c is None or c.get('k') != 'call' or c.get('recv') is None:
+            return None
+        names.add(c.get('q', '').rsplit('::', 1)[-1].lstrip('c'))
+        for y in fn.subtree(c['recv']):
+            m = fn.nodes[y]
+            if m.get('k') == 'call' and is_entity_class(m.get('rcls')):
+                colls.add(m['q'].rsplit('::', 1)[-1])
+    if names == {'begin', 'end'} and len(colls) == 1:
+        return next(iter(colls))
+    return None
+
+
+def emptiness_guards(fb, fn, nid):
+    """Sub-collections known to be empty when node nid executes: X.c().empty(), X.c().size() == 0, !X.c().size() ..."""
+    out = set()
+
+    def coll_of(x):
+        for y in fn.subtree(x):
+            n = fn.nodes[y]
+            if _is_collection_call(fb, n):
+                return n['q'].rsplit('::', 1)[-1]
+        return None
+    from .codec import through_locals
+    for (c, s, _b) in edge_guards(fn, nid):
+        n = through_locals(fn, c)
+        if n is None:
+            continue
+        if n.get('k') == 'call' and n.get('q', '').rsplit('::', 1)[-1] == 'empty' and s and n.get('recv') is not None:
+            nm = coll_of(n['recv'])
+            if nm:
+                out.add(nm)
+        elif n.get('k') == 'call' and n.get('q', '').rsplit('::', 1)[-1] == 'size' and not s and n.get('recv') is not None:
+            nm = coll_of(n['recv'])      # `!x.size()` / `if (x.size()) {} else {...}`
+            if nm:
+                out.add(nm)
+        elif (n.get('k') in ('binop', 'call') and n.get('op') in ('==', '!=') and
+              _begin_end_pair(fn, n) is not None):
+            # x.begin() == x.end()
+            if s == (n['op'] == '=='):
+                out.add(_begin_end_pair(fn, n))
+        elif n.get('k') == 'binop' and n.get('op') in ('==', '!=', '>', '<', '<=', '>='):
+            for (a, b, op) in ((n['lhs'], n['rhs'], n['op']), (n['rhs'], n['lhs'], {'>': '<', '<': '>', '<=': '>=', '>=': '<='}.get(n['op'], n['op']))):
+                ca = through_locals(fn, a)
+                if ca is not None and ca.get('k') == 'call' and ca.get('q', '').rsplit('::', 1)[-1] == 'size' and ca.get('recv') is not None:
+                    v = fn.const_value(b)
+                    nm = coll_of(ca['recv'])
+                    if nm is None or v is None:
+                        continue
+                    # size op v holds (s) / does not hold (not s): is size == 0 implied?
+                    import operator
+                    ops = {'==': operator.eq, '!=': operator.ne, '>': operator.gt, '<': operator.lt, '<=': operator.le, '>=': operator.ge}
+                    sat = [k for k in range(0, 4) if ops[op](k, v) == s]
+                    if sat == [0]:
+                        out.add(nm)
+    return out
